@@ -1,7 +1,8 @@
 import OpusModel.DecSkel.Spec
 /-
   OpusProofs.DecSkelBasic — bookkeeping lemmas for the decoder skeleton: `Run` projections,
-  `LogOk` under push, sampling-rate arithmetic, the `silk_Decode` loop.
+  `LogGood` under push, sampling-rate arithmetic (`Units`), the frame-level state relation
+  `FrameRel`, the bundled run invariant `Good`, and the `silk_Decode` loop.
 -/
 namespace Opus.DecSkel
 open Opus
@@ -19,16 +20,14 @@ open Opus
 @[simp] theorem Ptr.add_cap (p : Ptr) (n : Int) : (p.add n).cap = p.cap := rfl
 @[simp] theorem Ptr.add_off (p : Ptr) (n : Int) : (p.add n).off = p.off + n := rfl
 
-theorem LogOk_push {r : Run} {e : Ev} : LogOk (r.push e) ↔ EvOk e ∧ LogOk r := by
-  simp [LogOk]
-theorem LogOk_push' {r : Run} {e : Ev} (h : LogOk r) (he : EvOk e) : LogOk (r.push e) := LogOk_push.2 ⟨he, h⟩
-@[simp] theorem LogOk_tick {r : Run} : LogOk r.tick ↔ LogOk r := Iff.rfl
-@[simp] theorem LogOk_setSt {r : Run} {s : DecState} : LogOk (r.setSt s) ↔ LogOk r := Iff.rfl
-theorem LogOk_ite_push {r : Run} {e : Ev} {c : Prop} [Decidable c] (h : LogOk r) (he : c → EvOk e) :
-    LogOk (if c then r.push e else r) := by
-  split
-  · exact LogOk_push' h (he ‹_›)
-  · exact h
+theorem LogGood_push {st0 : DecState} {cap0 : Int} {r : Run} {e : Ev} :
+    LogGood st0 cap0 (r.push e) ↔ EvGood st0 cap0 e ∧ LogGood st0 cap0 r := by
+  simp [LogGood]
+theorem LogGood_push' {st0 : DecState} {cap0 : Int} {r : Run} {e : Ev} (h : LogGood st0 cap0 r)
+    (he : EvGood st0 cap0 e) : LogGood st0 cap0 (r.push e) := LogGood_push.2 ⟨he, h⟩
+@[simp] theorem LogGood_tick {st0 : DecState} {cap0 : Int} {r : Run} : LogGood st0 cap0 r.tick ↔ LogGood st0 cap0 r := Iff.rfl
+@[simp] theorem LogGood_setSt {st0 : DecState} {cap0 : Int} {r : Run} {s : DecState} :
+    LogGood st0 cap0 (r.setSt s) ↔ LogGood st0 cap0 r := Iff.rfl
 
 @[simp] theorem bindRun_ret {α β : Type} (a : α) (r : Run) (f : α → Run → Out β × Run) :
     bindRun (.ret a, r) f = f a r := rfl
@@ -43,7 +42,7 @@ theorem cdiv_nonneg {a b : Int} (ha : 0 ≤ a) : cdiv a b = a / b := by
 theorem cmod_nonneg {a b : Int} (ha : 0 ≤ a) : cmod a b = a % b := by
   unfold cmod; exact Int.tmod_eq_emod_of_nonneg ha
 
-/-- The 2.5 ms unit and its multiples at a legal rate. -/
+/-- The 2.5 ms unit `u` and its multiples at a legal rate. -/
 structure Units (st : DecState) (u : Int) : Prop where
   pos : 20 ≤ u
   fs : st.Fs = 400 * u
@@ -53,8 +52,12 @@ structure Units (st : DecState) (u : Int) : Prop where
   f20 : F20 st = 8 * u
   f120 : st.Fs / 25 * 3 = 48 * u
   u400 : st.Fs / 400 = u
+  u200 : st.Fs / 200 = 2 * u
+  u100 : st.Fs / 100 = 4 * u
+  u50 : st.Fs / 50 = 8 * u
   ms10 : 10 * (st.Fs / 1000) = 4 * u
   ms20 : 20 * (st.Fs / 1000) = 8 * u
+  five : u = 20 ∨ u = 30 ∨ u = 40 ∨ u = 60 ∨ u = 120
 
 theorem units_of_fs {st : DecState} (h : FsOk st.Fs) : ∃ u, Units st u := by
   rcases h with h | h | h | h | h
@@ -64,9 +67,82 @@ theorem units_of_fs {st : DecState} (h : FsOk st.Fs) : ∃ u, Units st u := by
   · exact ⟨60, by constructor <;> simp [F2_5, F5, F10, F20, h]⟩
   · exact ⟨120, by constructor <;> simp [F2_5, F5, F10, F20, h]⟩
 
-end Opus.DecSkel
+theorem Units.congr {s s' : DecState} {u : Int} (h : Units s u) (e : s'.Fs = s.Fs) : Units s' u := by
+  have hfs := h.fs; have h5 := h.five; have hp := h.pos
+  constructor <;> (try simp only [F2_5, F5, F10, F20, e]) <;> omega
 
-namespace Opus.DecSkel
+theorem Units.fsOk {s : DecState} {u : Int} (h : Units s u) : FsOk s.Fs := by
+  have := h.fs; have := h.five; unfold FsOk; omega
+
+/-! ### frame-level state relation -/
+
+/-- What `opus_decode_frame` leaves alone: everything except `DecControl.{payloadSize_ms,
+    internalSampleRate, nChannelsInternal}`, `prev_mode` and `prev_redundancy`; the SILK control
+    block, once initialised, stays initialised. -/
+structure FrameRel (s s' : DecState) : Prop where
+  fs : s'.Fs = s.Fs
+  ch : s'.channels = s.channels
+  gain : s'.decode_gain = s.decode_gain
+  sch : s'.stream_channels = s.stream_channels
+  bw : s'.bandwidth = s.bandwidth
+  mode : s'.mode = s.mode
+  fsz : s'.frame_size = s.frame_size
+  lpd : s'.last_packet_duration = s.last_packet_duration
+  api : s'.dc.API_sampleRate = s.dc.API_sampleRate
+  nca : s'.dc.nChannelsAPI = s.dc.nChannelsAPI
+  isr : s.dc.internalSampleRate ≠ 0 → s'.dc.internalSampleRate ≠ 0
+  nci : s.dc.nChannelsInternal ≠ 0 → s'.dc.nChannelsInternal ≠ 0
+
+theorem FrameRel.refl (s : DecState) : FrameRel s s := by constructor <;> first | rfl | exact id
+
+theorem FrameRel.trans {a b c : DecState} (h1 : FrameRel a b) (h2 : FrameRel b c) : FrameRel a c := by
+  constructor
+  · rw [h2.fs, h1.fs]
+  · rw [h2.ch, h1.ch]
+  · rw [h2.gain, h1.gain]
+  · rw [h2.sch, h1.sch]
+  · rw [h2.bw, h1.bw]
+  · rw [h2.mode, h1.mode]
+  · rw [h2.fsz, h1.fsz]
+  · rw [h2.lpd, h1.lpd]
+  · rw [h2.api, h1.api]
+  · rw [h2.nca, h1.nca]
+  · exact fun h => h2.isr (h1.isr h)
+  · exact fun h => h2.nci (h1.nci h)
+
+/-! ### the bundled invariant of a run -/
+
+/-- The decoder invariant holds, the rate/channel count are those of the reference state `st0`
+    (which fixes the sizes of the scratch buffers) and every logged event is good. -/
+structure Good (st0 : DecState) (cap0 : Int) (r : Run) : Prop where
+  inv : DecInv r.st
+  fs : r.st.Fs = st0.Fs
+  ch : r.st.channels = st0.channels
+  log : LogGood st0 cap0 r
+
+theorem Good.push {st0 : DecState} {cap0 : Int} {r : Run} {e : Ev} (h : Good st0 cap0 r)
+    (he : EvGood st0 cap0 e) : Good st0 cap0 (r.push e) :=
+  ⟨h.inv, h.fs, h.ch, LogGood_push' h.log he⟩
+
+theorem Good.tick {st0 : DecState} {cap0 : Int} {r : Run} (h : Good st0 cap0 r) : Good st0 cap0 r.tick :=
+  ⟨h.inv, h.fs, h.ch, h.log⟩
+
+theorem Good.pushIf {st0 : DecState} {cap0 : Int} {r : Run} {e : Ev} {c : Prop} [Decidable c]
+    (h : Good st0 cap0 r) (he : c → EvGood st0 cap0 e) : Good st0 cap0 (if c then r.push e else r) := by
+  split
+  · exact h.push (he ‹_›)
+  · exact h
+
+theorem PtrCapOk.congr {s s' : DecState} {cap0 : Int} {p : Ptr} (h : PtrCapOk s cap0 p)
+    (e1 : s'.Fs = s.Fs) (e2 : s'.channels = s.channels) : PtrCapOk s' cap0 p := by
+  unfold PtrCapOk at *
+  simp only [F10, F5, F20, e1, e2]
+  exact h
+
+theorem PtrCapOk.add {s : DecState} {cap0 : Int} {p : Ptr} (h : PtrCapOk s cap0 p) (n : Int) :
+    PtrCapOk s cap0 (p.add n) := h
+
+/-! ### the `silk_Decode` loop -/
 
 /-- The arguments `silkLoop` passes to `silk_Decode`. -/
 def loopArgs (st : DecState) (lost first : Int) : SilkArgs :=
@@ -77,12 +153,13 @@ def loopArgs (st : DecState) (lost first : Int) : SilkArgs :=
 /-- `silk_Decode` frame length for the current control block. -/
 def loopN (st : DecState) : Int := (if st.dc.payloadSize_ms = 10 then 10 else 20) * (st.dc.API_sampleRate / 1000)
 
-theorem silkStep_ok {o : Oracle} (ho : OracleOk o) {lost fsz decoded : Int} {p : Ptr} {tell : Int} {r : Run}
+theorem silkStep_ok {o : Oracle} (ho : OracleOk o) {st0 : DecState} {cap0 : Int} {lost fsz decoded : Int} {p : Ptr}
+    {tell : Int} {r : Run}
     (hargs : SilkArgsOk (loopArgs r.st lost 0)) (hroom : p.room (loopN r.st * r.st.dc.nChannelsAPI))
-    (hlog : LogOk r) (htell : lost ≠ 1 → 1 ≤ tell) :
+    (hcap : PtrCapOk st0 cap0 p) (hlog : LogGood st0 cap0 r) (htell : 1 ≤ tell) :
     (silkStep o lost fsz decoded p tell r).err = 0 ∧ (silkStep o lost fsz decoded p tell r).n = loopN r.st ∧
-    (silkStep o lost fsz decoded p tell r).run.st = r.st ∧ LogOk (silkStep o lost fsz decoded p tell r).run ∧
-    (lost ≠ 1 → 1 ≤ (silkStep o lost fsz decoded p tell r).tell) := by
+    (silkStep o lost fsz decoded p tell r).run.st = r.st ∧ LogGood st0 cap0 (silkStep o lost fsz decoded p tell r).run ∧
+    1 ≤ (silkStep o lost fsz decoded p tell r).tell := by
   have hA : SilkArgsOk (loopArgs r.st lost (if decoded = 0 then 1 else 0)) := hargs
   have hc := ho.silk r.k (loopArgs r.st lost (if decoded = 0 then 1 else 0)) hA
   obtain ⟨h1, h2, h3⟩ := hc
@@ -92,39 +169,42 @@ theorem silkStep_ok {o : Oracle} (ho : OracleOk o) {lost fsz decoded : Int} {p :
   simp only [h1, ne_eq, not_true_eq_false, false_and, ↓reduceIte]
   refine ⟨trivial, ?_, rfl, ?_, ?_⟩
   · rw [h2, hn]
-  · apply LogOk_push' (by simpa using hlog)
-    refine ⟨hA, rfl, ?_, ?_⟩
+  · apply LogGood_push' (by simpa using hlog)
+    refine ⟨⟨hA, rfl, ?_, ?_⟩, ?_⟩
     · rw [h2, hn]
     · rw [h2, hn]; exact hroom
-  · intro hl
-    simp only [hl, ↓reduceIte]
-    exact h3 hl
+    · intro q hq
+      simp only [Ev.ptr?, Option.some.injEq] at hq
+      subst hq; exact hcap
+  · by_cases hl : lost = 1
+    · simp only [hl, ↓reduceIte]; exact htell
+    · simp only [hl, ↓reduceIte]; exact h3 hl
 
-/-- The `silk_Decode` loop under the oracle contract: `m` iterations, each writing one SILK
-    frame; all inside the buffer when `m` frames fit at `p`. -/
-theorem silkLoop_spec {o : Oracle} (ho : OracleOk o) (lost fsz : Int) :
+/-- The `silk_Decode` loop under the oracle contract: `m+1` iterations, each writing one SILK
+    frame; all inside the buffer when `m+1` frames fit at `p`. -/
+theorem silkLoop_spec {o : Oracle} (ho : OracleOk o) {st0 : DecState} {cap0 : Int} (lost fsz : Int) :
     ∀ (m : Nat) (decoded : Int) (p : Ptr) (tell : Int) (r : Run),
       SilkArgsOk (loopArgs r.st lost 0) → r.st.dc.nChannelsAPI = r.st.channels → 0 < r.st.channels →
-      0 < loopN r.st → LogOk r → (lost ≠ 1 → 1 ≤ tell) →
+      0 < loopN r.st → LogGood st0 cap0 r → PtrCapOk st0 cap0 p → 1 ≤ tell →
       0 ≤ p.off → p.off + (m + 1) * (loopN r.st * r.st.channels) ≤ p.cap →
       fsz - decoded ≤ (m + 1) * loopN r.st → m * loopN r.st < fsz - decoded →
-      ∃ tell' r', silkLoop o lost fsz decoded p tell r = (.ret (0, tell'), r') ∧ r'.st = r.st ∧ LogOk r' ∧
-        (lost ≠ 1 → 1 ≤ tell') := by
+      ∃ tell' r', silkLoop o lost fsz decoded p tell r = (.ret (0, tell'), r') ∧ r'.st = r.st ∧ LogGood st0 cap0 r' ∧
+        1 ≤ tell' := by
   intro m
   induction m with
   | zero =>
-    intro decoded p tell r hargs hnca hch hn hlog htell hoff hcap hle hlt
+    intro decoded p tell r hargs hnca hch hn hlog hpc htell hoff hcap hle hlt
     have hroom : p.room (loopN r.st * r.st.dc.nChannelsAPI) := by
       rw [hnca]; refine ⟨hoff, Int.mul_nonneg (Int.le_of_lt hn) (Int.le_of_lt hch), ?_⟩
       simpa using hcap
-    obtain ⟨e1, e2, e3, e4, e5⟩ := silkStep_ok ho (fsz := fsz) (decoded := decoded) hargs hroom hlog htell
+    obtain ⟨e1, e2, e3, e4, e5⟩ := silkStep_ok ho (fsz := fsz) (decoded := decoded) hargs hroom hpc hlog htell
     rw [silkLoop]
     simp only [e1, ne_eq, not_true_eq_false, ↓reduceIte, e2]
     have : ¬ (decoded + loopN r.st < fsz) := by simp at hle; omega
     simp only [this, ↓reduceDIte]
     exact ⟨_, _, rfl, e3, e4, e5⟩
   | succ m ih =>
-    intro decoded p tell r hargs hnca hch hn hlog htell hoff hcap hle hlt
+    intro decoded p tell r hargs hnca hch hn hlog hpc htell hoff hcap hle hlt
     have hmul : ((m + 1 : Nat) + 1 : Int) * (loopN r.st * r.st.channels)
         = (m + 1 : Int) * (loopN r.st * r.st.channels) + loopN r.st * r.st.channels := by
       rw [Int.add_mul]; simp
@@ -139,7 +219,7 @@ theorem silkLoop_spec {o : Oracle} (ho : OracleOk o) (lost fsz : Int) :
     have hroom : p.room (loopN r.st * r.st.dc.nChannelsAPI) := by
       rw [hnca]; refine ⟨hoff, Int.le_of_lt hpos, ?_⟩
       rw [hmul] at hcap; omega
-    obtain ⟨e1, e2, e3, e4, e5⟩ := silkStep_ok ho (fsz := fsz) (decoded := decoded) hargs hroom hlog htell
+    obtain ⟨e1, e2, e3, e4, e5⟩ := silkStep_ok ho (fsz := fsz) (decoded := decoded) hargs hroom hpc hlog htell
     rw [silkLoop]
     simp only [e1, ne_eq, not_true_eq_false, ↓reduceIte, e2]
     have hcont : decoded + loopN r.st < fsz := by rw [hmul3] at hlt; omega
@@ -148,7 +228,7 @@ theorem silkLoop_spec {o : Oracle} (ho : OracleOk o) (lost fsz : Int) :
     have := ih (decoded + loopN r.st) (p.add (loopN r.st * r.st.channels)) (silkStep o lost fsz decoded p tell r).tell
       (silkStep o lost fsz decoded p tell r).run
     rw [e3] at this
-    obtain ⟨t', r', h1, h2, h3, h4⟩ := this hargs hnca hch hn e4 e5 (by simp; omega)
+    obtain ⟨t', r', h1, h2, h3, h4⟩ := this hargs hnca hch hn e4 (hpc.add _) e5 (by simp; omega)
       (by simp only [Ptr.add_off, Ptr.add_cap]; rw [hmul] at hcap; omega)
       (by rw [hmul2] at hle; omega) (by rw [hmul3] at hlt; omega)
     exact ⟨t', r', h1, h2, h3, h4⟩
